@@ -25,6 +25,9 @@ type c06Case struct {
 	Gen     bool          `json:"row_class_generator"`
 	GenBase gen.Q         `json:"generator_output_prefix"`
 	TName   string        `json:"template_name"`
+	Staged  bool          `json:"staged_wrapper_reused_with_other_settings_at_first_render"`
+	StageAt int           `json:"first_render_after_row_operations"`
+	PreGen  bool          `json:"generator_set_at_first_render"`
 }
 
 type c06Call struct {
@@ -126,11 +129,26 @@ func attrsOnly(t *model.HTMLToken, allowed ...string) (map[string]string, error)
 func c06Check(c *Ctx, cs *c06Case, sample bool) {
 	c.Case = cs
 	spec := &cs.Table
-	b := spec.Build(tabular.New())
-	ht := html.Wrap(b.T)
-	ht.Id, ht.Class, ht.Caption, ht.TemplateName = string(cs.ID), string(cs.Class), string(cs.Caption), cs.TName
+	t0 := tabular.New()
+	ht := html.Wrap(t0)
+	ht.TemplateName = cs.TName
 	var calls []c06Call
 	ctxObj := &struct{ x int }{7}
+	if cs.Staged {
+		// the same wrapper renders the partial table under other settings first
+		ht.Id, ht.Class, ht.Caption = "earlier-id", "", "an earlier <caption>"
+		if cs.PreGen {
+			ht.SetRowClassGenerator(func(rowNum int, ctx interface{}) template.HTMLAttr { return "earlier-generator" }, "earlier context")
+		}
+		b := spec.BuildStaged(t0, cs.StageAt, func() { ht.Render() })
+		ht.Render()
+		b.Finalize()
+		ht.SetRowClassGenerator(nil, nil)
+		c.Rec.Count("staged_cases(render, change, render again through the same wrapper)", 1)
+	} else {
+		spec.Build(t0)
+	}
+	ht.Id, ht.Class, ht.Caption = string(cs.ID), string(cs.Class), string(cs.Caption)
 	if cs.Gen {
 		ht.SetRowClassGenerator(func(rowNum int, ctx interface{}) template.HTMLAttr {
 			ret := fmt.Sprintf("%s#call%d", cs.GenBase, len(calls))
@@ -349,6 +367,9 @@ func c06Random(c *Ctx, i int, r *gen.R) {
 	if r.Chance(1, 4) {
 		cs.TName = r.Word()
 	}
+	if r.Chance(1, 2) {
+		cs.Staged, cs.StageAt, cs.PreGen = true, r.Range(0, len(spec.Rows)), r.Bool()
+	}
 	c06Check(c, cs, true)
 }
 
@@ -376,6 +397,9 @@ func c06Contexts(c *Ctx, i int, r *gen.R) {
 		cs.Class = gen.Q(s)
 	case 5:
 		cs.Gen, cs.GenBase = true, gen.Q(s)
+	}
+	if i%3 == 1 {
+		cs.Staged, cs.StageAt, cs.PreGen = true, i%4, i%2 == 0
 	}
 	c06Check(c, cs, i%900 == 11)
 }
